@@ -1,5 +1,5 @@
 (* C02 -- a frame buffer never has two parties inside it at once. *)
-From EC Require Import Base.Prelude Base.Bytes Pdu.Frame Pdu.Slots Pdu.SlotsProofs Pdu.Client
+From EC Require Import Base.Prelude Base.Bytes Pdu.Frame Pdu.Slots Pdu.View Pdu.Hist Pdu.SlotsProofs Pdu.Client
   Pdu.ClientProofs Pdu.Own2 Pdu.Own2Proofs.
 Local Open Scope N_scope.
 
